@@ -74,6 +74,53 @@ assert keccak256(b"abc").hex() == "4e03657aea45a94fc7d47ba826c8d667c0d1e6e33a64a
 assert keccak256(b"", 0x06).hex() == "a7ffc6f8bf1ed76651c14756a061d662f580ff4de43b49fa82d80a4b80f8434a"
 
 
+# ---- a faster variant for checks that hash a lot (C06): the same permutation as straight-line code on 25 local
+# variables (lane i = x + 5y), generated from the same tables; self-tested against the plain version above.
+def _gen_fast():
+    ind = "        "
+    src = ["def keccak_f_fast(s):", "    " + ",".join("a%d" % i for i in range(25)) + " = s", "    for rc in _RC:"]
+    for x in range(5):
+        src.append(ind + "c%d = a%d^a%d^a%d^a%d^a%d" % (x, x, x + 5, x + 10, x + 15, x + 20))
+    for x in range(5):
+        src.append(ind + "d%d = c%d ^ ((c%d<<1 | c%d>>63) & M64)" % (x, (x - 1) % 5, (x + 1) % 5, (x + 1) % 5))
+    for x in range(5):
+        for y in range(5):
+            r = _ROT[x][y]
+            t = "(a%d^d%d)" % (x + 5 * y, x)
+            e = t if r == 0 else "((%s<<%d | %s>>%d) & M64)" % (t, r, t, 64 - r)
+            src.append(ind + "b%d = %s" % (y + 5 * ((2 * x + 3 * y) % 5), e))
+    for y in range(5):
+        for x in range(5):
+            src.append(ind + "a%d = b%d ^ (~b%d & b%d)" % (x + 5 * y, x + 5 * y, (x + 1) % 5 + 5 * y, (x + 2) % 5 + 5 * y))
+    src.append(ind + "a0 ^= rc")
+    src.append("    return [" + ",".join("a%d" % i for i in range(25)) + "]")
+    env = {"_RC": _RC, "M64": M64}
+    exec("\n".join(src), env)
+    return env["keccak_f_fast"]
+
+
+keccak_f_fast = _gen_fast()
+
+
+def keccak256_fast(msg):
+    rate = 136
+    p = bytearray(msg)
+    p.append(0x01)
+    p.extend(b"\x00" * (-len(p) % rate))
+    p[-1] |= 0x80
+    a = [0] * 25
+    for off in range(0, len(p), rate):
+        for i in range(17):
+            a[i] ^= int.from_bytes(p[off + 8 * i:off + 8 * i + 8], "little")
+        a = keccak_f_fast(a)
+    return b"".join(a[i].to_bytes(8, "little") for i in range(4))
+
+
+for _n in (0, 1, 3, 64, 135, 136, 137, 271, 272, 273, 500):
+    _m = bytes((7 * i + _n) % 256 for i in range(_n))
+    assert keccak256_fast(_m) == keccak256(_m)
+
+
 def hx(bs):
     return bytes(bs).hex() if bs else "-"
 
